@@ -20,7 +20,7 @@ sed -i "s#target-dir = \"/verif/target\"#target-dir = \"$MT/target\"#" "$MT/h/.c
 rsync -a --delete /verif/known/ "$MT/root/known/"
 cp /verif/KNOWN_FINDINGS.txt /verif/properties.jsonl "$MT/root/"
 mkdir -p "$MT/root/harness" "$MT/root/evidence"
-(cd "$MT/h" && cargo build --offline --release --bin "$BIN" 2>&1 | grep -E "^error" -A 8 | head -30)
+(cd "$MT/h" && CARGO_TARGET_DIR="$MT/target" cargo build --offline --release --bin "$BIN" 2>&1 | grep -E "^error" -A 8 | head -30)
 [ -x "$MT/target/release/$BIN" ] || { echo "BUILD-FAILED"; exit 2; }
 export VERIF_ROOT="$MT/root"
 case "$ID" in C12|C20) export VERIF_CLOCK_SHIM=/verif/shim/libverifclock.so;; esac
